@@ -190,13 +190,22 @@ func (m *Manager) ClearPeer(peerID core.PeerID) {
 	delete(m.requestsByPeer, peerID)
 
 	for i, rs := range m.requests {
-		for j, r := range rs {
-			if r.PeerID == peerID {
-				// Eject request.
-				rs[j] = rs[len(rs)-1]
-				m.requests[i] = rs[:len(rs)-1]
-				break
+		// Eject every request of the peer: a piece may hold several of them when
+		// it was re-reserved for the same peer after an expired, unsent or
+		// invalid request.
+		kept := rs[:0]
+		for _, r := range rs {
+			if r.PeerID != peerID {
+				kept = append(kept, r)
 			}
+		}
+		for j := len(kept); j < len(rs); j++ {
+			rs[j] = nil
+		}
+		if len(kept) == 0 {
+			delete(m.requests, i)
+		} else {
+			m.requests[i] = kept
 		}
 	}
 }
